@@ -623,7 +623,9 @@ pub fn generate(rng: &mut Rng, n: usize, tier: &str) -> Vec<Value> {
         v.push(json!({"kind":"ev","which":0,"class":"utf8","input":jbytes(&s),"parts":all_single_cuts(s.len())}));
         v.push(json!({"kind":"ev","which":1,"class":"utf8","input":jbytes(&s),"parts":all_single_cuts(s.len())}));
     }
-    while v.len() < n {
+    // the thorough tier adds its n random cases on top of the (much larger) exhaustive part
+    let target = if thorough { v.len() + n } else { n };
+    while v.len() < target {
         match rng.below(10) {
             0 => {
                 let mut s = vec![];
